@@ -1,14 +1,13 @@
 #!/usr/bin/env python3
 """tools/register.py Cxx… — validate a property's check on /repo (seed 1, quick) with its findings merged; on exit 0 mark
 the entry ready, rebuild known_findings.json and MANIFEST.json; otherwise leave it unregistered and print why."""
-import json, os
+import json, os, subprocess, sys, time
 
 def atomic_dump(obj, path):
     tmp = path + ".tmp%d" % os.getpid()
     with open(tmp, "w") as f:
         json.dump(obj, f, indent=1)
     os.replace(tmp, path)
-, subprocess, sys, time
 ROOT = os.path.dirname(os.path.dirname(os.path.abspath(__file__)))
 for pid in sys.argv[1:]:
     e = os.path.join(ROOT, "props", pid, "entry.json")
